@@ -381,12 +381,65 @@ theorem Dep.stakes {t : Tx} {rest : List Tx} (hdep : Dep t rest) (s : State) :
     obtain ⟨a, ha, he⟩ := stakeMap_key hc
     exact absurd he (hdep a ha id hid)
 
-theorem lastHeader_eq {s s' : State} (fb fb' : Header) (hh : ∃ hdr, s.history.get (s.height - 1) = some hdr)
-    (e1 : s'.history = s.history) (e2 : s'.height = s.height) : lastHeaderOf s' fb' = lastHeaderOf s fb := by
-  obtain ⟨hdr, hh⟩ := hh
+/-! ### the header covenants see
+
+  `lastHeaderOf s _` is `history[height-1]` when that entry exists, else the stand-in `genesisStandIn s`, which is made of
+  `s.network`, `s.height`, `s.feeMultiplier` and `s.doscSpeed` only (finding F25: the old fallback was the header of the
+  block sealed as it stood, which changes with every transaction).  A batch keeps network, height, fee multiplier and
+  history; it changes `doscSpeed` only by accepting a DoscMint transaction, and `validateDoscmint` accepts only when
+  `history[height-1]` exists (it reads the previous header's speed).  So in a state without previous header no batch
+  changes the stand-in, and the header covenants see is the same at every step of a one-at-a-time application — with no
+  assumption on the state. -/
+
+/-- an accepted DoscMint transaction needs the previous header -/
+theorem doscmint_ok_prev {env : Env} {s : State} {rel : Relevant} {tx : Tx} {sp : Nat}
+    (h : validateDoscmint env s rel tx = .ok sp) : ∃ prev, s.history.get (s.height - 1) = some prev := by
+  cases hp : s.history.get (s.height - 1) with
+  | some p => exact ⟨p, rfl⟩
+  | none =>
+    exfalso
+    unfold validateDoscmint at h
+    simp only [hp] at h
+    repeat' split at h
+    all_goals first | cases h | (obtain ⟨_, _, h⟩ := Outcome.bind_eq_ok.mp h; cases h)
+
+/-- without previous header the speed fold cannot change the speed -/
+theorem speedFold_first {env : Env} {s : State} {rel : Relevant} (hn : s.history.get (s.height - 1) = none) :
+    ∀ (txs : List Tx) (b sp : Nat), Outcome.foldlM' (spStep env s rel) b txs = .ok sp → sp = b := by
+  intro txs
+  induction txs with
+  | nil =>
+    intro b sp h
+    exact ((Outcome.foldlM'_nil_ok _ _ _).mp h).symm
+  | cons t rest ih =>
+    intro b sp h
+    obtain ⟨b', h1, h2⟩ := (Outcome.foldlM'_cons_ok _ _ _ _ _).mp h
+    have : b' = b := by
+      unfold spStep at h1
+      split at h1
+      · obtain ⟨v, hv, -⟩ := Outcome.bind_eq_ok.mp h1
+        obtain ⟨p, hp⟩ := doscmint_ok_prev hv
+        rw [hn] at hp
+        cases hp
+      · cases h1
+        rfl
+    rw [ih b' sp h2, this]
+
+/-- the stand-in is determined by network, height, fee multiplier and DOSC speed -/
+theorem genesisStandIn_congr {s s' : State} (e2 : s'.height = s.height) (e3 : s'.network = s.network)
+    (e4 : s'.feeMultiplier = s.feeMultiplier) (e5 : s'.doscSpeed = s.doscSpeed) :
+    genesisStandIn s' = genesisStandIn s := by
+  simp only [genesisStandIn, e2, e3, e4, e5]
+
+theorem lastHeader_eq {s s' : State} (fb fb' : Header) (e1 : s'.history = s.history) (e2 : s'.height = s.height)
+    (e3 : s'.network = s.network) (e4 : s'.feeMultiplier = s.feeMultiplier)
+    (e5 : s.history.get (s.height - 1) = none → s'.doscSpeed = s.doscSpeed) :
+    lastHeaderOf s' fb' = lastHeaderOf s fb := by
   unfold lastHeaderOf
-  rw [e1, e2, hh]
-  rfl
+  rw [e1, e2]
+  cases hp : s.history.get (s.height - 1) with
+  | some hdr => rfl
+  | none => simp only [Option.getD_none, genesisStandIn_congr e2 e3 e4 (e5 hp)]
 
 section split
 variable {env : Env} {s sm : State} {t : Tx} {rest : List Tx} {fb' : Header}
@@ -428,11 +481,11 @@ theorem stake_tail (Ft : Facts env s [t] fb' relt spt sm) (k : Hash) :
   rw [stakeMap_cons s t rest]
   simp only [Option.isSome_or, Bool.or_assoc]
 
-theorem val_head (hdep : Dep t rest) (fb : Header) (hh : ∃ hdr, s.history.get (s.height - 1) = some hdr)
+theorem val_head (hdep : Dep t rest) (fb : Header)
     (h : loadRelevantCoins s (t :: rest) = .ok rel) (ht : loadRelevantCoins s [t] = .ok relt) :
     checkTxValidity env s (lastHeaderOf s fb') t relt (stakeMap s [t]) =
       checkTxValidity env s (lastHeaderOf s fb) t rel (stakeMap s (t :: rest)) := by
-  rw [lastHeader_eq fb fb' hh rfl rfl]
+  rw [lastHeader_eq fb fb' rfl rfl rfl rfl (fun _ => rfl)]
   apply checkTx_congr
   · exact rel_head hdep h ht
   · intro id hid
@@ -440,12 +493,12 @@ theorem val_head (hdep : Dep t rest) (fb : Header) (hh : ∃ hdr, s.history.get 
   · rfl
 
 theorem val_tail (hpre : SPre env s (t :: rest)) (Ft : Facts env s [t] fb' relt spt sm) (fb : Header)
-    (hh : ∃ hdr, s.history.get (s.height - 1) = some hdr)
     (h : loadRelevantCoins s (t :: rest) = .ok rel) (hr : loadRelevantCoins sm rest = .ok relr)
     (hdisj : ∀ id ∈ rest.flatMap (·.inputs), id ∉ t.inputs) (u : Tx) (hu : u ∈ rest) :
     checkTxValidity env sm (lastHeaderOf sm fb') u relr (stakeMap sm rest) =
       checkTxValidity env s (lastHeaderOf s fb) u rel (stakeMap s (t :: rest)) := by
-  rw [lastHeader_eq fb fb' hh Ft.history Ft.height]
+  rw [lastHeader_eq fb fb' Ft.history Ft.height Ft.network Ft.feeMultiplier
+    (fun hn => Ft.doscSpeed.trans (speedFold_first hn [t] s.doscSpeed spt Ft.hsp))]
   apply checkTx_congr
   · intro id hid
     have : id ∈ rest.flatMap (·.inputs) := List.mem_flatMap.mpr ⟨u, hu, hid⟩
@@ -581,7 +634,7 @@ variable {env : Env} {s sm s₁ s₂ : State} {t : Tx} {rest : List Tx} {fb fb' 
   {rel relt relr : Relevant} {sp spt spr : Nat}
 
 theorem head_accept (hpre : SPre env s (t :: rest)) (hdep : Dep t rest)
-    (hh : ∃ hdr, s.history.get (s.height - 1) = some hdr) (F : Facts env s (t :: rest) fb rel sp s₁)
+    (F : Facts env s (t :: rest) fb rel sp s₁)
     (fb' : Header) : ∃ sm, applyBatch env s [t] fb' = .ok sm := by
   obtain ⟨hwf, hnd, hin, -, -⟩ := loadRelevantCoins_ok F.hrel
   rw [List.flatMap_cons, List.nodup_append] at hnd
@@ -617,7 +670,7 @@ theorem head_accept (hpre : SPre env s (t :: rest)) (hdep : Dep t rest)
   · intro tx htx
     simp only [List.mem_cons, List.not_mem_nil, or_false] at htx
     subst htx
-    rw [val_head hdep fb hh F.hrel hrt]
+    rw [val_head hdep fb F.hrel hrt]
     exact F.hval tx List.mem_cons_self
   · intro x hx
     simp only [List.mem_cons, List.not_mem_nil, or_false] at hx
@@ -625,7 +678,7 @@ theorem head_accept (hpre : SPre env s (t :: rest)) (hdep : Dep t rest)
     exact List.mem_cons_self
 
 theorem tail_accept (hpre : SPre env s (t :: rest)) (hdep : Dep t rest)
-    (hh : ∃ hdr, s.history.get (s.height - 1) = some hdr) (F : Facts env s (t :: rest) fb rel sp s₁)
+    (F : Facts env s (t :: rest) fb rel sp s₁)
     (Ft : Facts env s [t] fb' relt spt sm) : ∃ s₂, applyBatch env sm rest fb' = .ok s₂ := by
   obtain ⟨hwf, hnd, hin, -, -⟩ := loadRelevantCoins_ok F.hrel
   rw [List.flatMap_cons, List.nodup_append] at hnd
@@ -667,11 +720,11 @@ theorem tail_accept (hpre : SPre env s (t :: rest)) (hdep : Dep t rest)
     rw [stakeRes_congr Ft.network Ft.height]
     exact F.hstk a (List.mem_cons_of_mem _ ha)
   · intro u hu
-    rw [val_tail hpre Ft fb hh F.hrel hrr hdisj u hu]
+    rw [val_tail hpre Ft fb F.hrel hrr hdisj u hu]
     exact F.hval u (List.mem_cons_of_mem _ hu)
 
 theorem join_accept (hpre : SPre env s (t :: rest)) (hdep : Dep t rest)
-    (hh : ∃ hdr, s.history.get (s.height - 1) = some hdr) (hgf : GfOk env s (t :: rest))
+    (hgf : GfOk env s (t :: rest))
     (Ft : Facts env s [t] fb' relt spt sm) (Fr : Facts env sm rest fb' relr spr s₂) (fb : Header) :
     ∃ s₁, applyBatch env s (t :: rest) fb = .ok s₁ := by
   obtain ⟨hwf1, hnd1, hin1, -, -⟩ := loadRelevantCoins_ok Ft.hrel
@@ -726,9 +779,9 @@ theorem join_accept (hpre : SPre env s (t :: rest)) (hdep : Dep t rest)
   · intro u hu
     rcases List.mem_cons.mp hu with e | h
     · subst e
-      rw [← val_head hdep fb hh hr Ft.hrel]
+      rw [← val_head hdep fb hr Ft.hrel]
       exact Ft.hval _ List.mem_cons_self
-    · rw [← val_tail hpre Ft fb hh hr Fr.hrel hdisj u h]
+    · rw [← val_tail hpre Ft fb hr Fr.hrel hdisj u h]
       exact Fr.hval u h
   · intro f hf hk hm
     rcases List.mem_cons.mp hf with e | h
@@ -825,25 +878,24 @@ theorem equiv_symm {a b : State} (h : Equiv a b) : Equiv b a :=
 
 theorem split_main {env : Env} {s s₁ : State} {t : Tx} {rest : List Tx} {fb : Header}
     (hpre : SPre env s (t :: rest)) (hdep : Dep t rest)
-    (hh : ∃ hdr, s.history.get (s.height - 1) = some hdr)
     (h : applyBatch env s (t :: rest) fb = .ok s₁) (fb' : Header) :
     ∃ sm s₂, applyBatch env s [t] fb' = .ok sm ∧ applyBatch env sm rest fb' = .ok s₂ ∧ Equiv s₁ s₂ ∧
       SPre env sm rest ∧ sm.height = s.height ∧ sm.history = s.history := by
   obtain ⟨rel, sp, F⟩ := batch_facts hpre h
-  obtain ⟨sm, hm⟩ := head_accept hpre hdep hh F fb'
+  obtain ⟨sm, hm⟩ := head_accept hpre hdep F fb'
   obtain ⟨relt, spt, Ft⟩ := batch_facts hpre.head hm
-  obtain ⟨s₂, h2⟩ := tail_accept hpre hdep hh F Ft
+  obtain ⟨s₂, h2⟩ := tail_accept hpre hdep F Ft
   obtain ⟨relr, spr, Fr⟩ := batch_facts (step_pre hpre Ft) h2
   exact ⟨sm, s₂, hm, h2, split_equiv hpre hdep F Ft Fr, step_pre hpre Ft, Ft.height, Ft.history⟩
 
 theorem join_main {env : Env} {s sm s₂ : State} {t : Tx} {rest : List Tx} {fb' : Header}
     (hpre : SPre env s (t :: rest)) (hdep : Dep t rest)
-    (hh : ∃ hdr, s.history.get (s.height - 1) = some hdr) (hgf : GfOk env s (t :: rest))
+    (hgf : GfOk env s (t :: rest))
     (hm : applyBatch env s [t] fb' = .ok sm) (h2 : applyBatch env sm rest fb' = .ok s₂) (fb : Header) :
     ∃ s₁, applyBatch env s (t :: rest) fb = .ok s₁ ∧ Equiv s₁ s₂ := by
   obtain ⟨relt, spt, Ft⟩ := batch_facts hpre.head hm
   obtain ⟨relr, spr, Fr⟩ := batch_facts (step_pre hpre Ft) h2
-  obtain ⟨s₁, h⟩ := join_accept hpre hdep hh hgf Ft Fr fb
+  obtain ⟨s₁, h⟩ := join_accept hpre hdep hgf Ft Fr fb
   obtain ⟨rel, sp, F⟩ := batch_facts hpre h
   exact ⟨s₁, h, split_equiv hpre hdep F Ft Fr⟩
 
@@ -866,37 +918,92 @@ def DepOrd : List Tx → Prop
   | t :: rest => Dep t rest ∧ DepOrd rest
 
 theorem seq_of_batch (env : Env) (fb' : Header) : ∀ (txs : List Tx) (s s₁ : State) (fb : Header),
-    SPre env s txs → DepOrd txs → (∃ hdr, s.history.get (s.height - 1) = some hdr) →
+    SPre env s txs → DepOrd txs →
     applyBatch env s txs fb = .ok s₁ → ∃ s₂, seqApply env s txs fb' = .ok s₂ ∧ Equiv s₁ s₂ := by
   intro txs
   induction txs with
   | nil =>
-    intro s s₁ fb _ _ _ h
+    intro s s₁ fb _ _ h
     rw [applyBatch_nil] at h
     cases h
     exact ⟨s, rfl, equiv_refl s⟩
   | cons t rest ih =>
-    intro s s₁ fb hpre hdep hh h
-    obtain ⟨sm, s₂, hm, h2, e, hpre', e1, e2⟩ := split_main hpre hdep.1 hh h fb'
-    obtain ⟨s₃, hs, e'⟩ := ih sm s₂ fb' hpre' hdep.2 (by rw [e1, e2]; exact hh) h2
+    intro s s₁ fb hpre hdep h
+    obtain ⟨sm, s₂, hm, h2, e, hpre', -, -⟩ := split_main hpre hdep.1 h fb'
+    obtain ⟨s₃, hs, e'⟩ := ih sm s₂ fb' hpre' hdep.2 h2
     exact ⟨s₃, (Outcome.foldlM'_cons_ok _ _ _ _ _).mpr ⟨sm, hm, hs⟩, equiv_trans e e'⟩
 
 theorem batch_of_seq (env : Env) (fb' : Header) : ∀ (txs : List Tx) (s s₂ : State) (fb : Header),
-    SPre env s txs → DepOrd txs → (∃ hdr, s.history.get (s.height - 1) = some hdr) → GfOk env s txs →
+    SPre env s txs → DepOrd txs → GfOk env s txs →
     seqApply env s txs fb' = .ok s₂ → ∃ s₁, applyBatch env s txs fb = .ok s₁ ∧ Equiv s₁ s₂ := by
   intro txs
   induction txs with
   | nil =>
-    intro s s₂ fb _ _ _ _ h
+    intro s s₂ fb _ _ _ h
     cases h
     exact ⟨s, applyBatch_nil env s fb, equiv_refl s⟩
   | cons t rest ih =>
-    intro s s₂ fb hpre hdep hh hgf h
+    intro s s₂ fb hpre hdep hgf h
     obtain ⟨sm, hm, hs⟩ := (Outcome.foldlM'_cons_ok _ _ _ _ _).mp h
-    obtain ⟨hpre', e1, e2⟩ := step_main hpre hm
-    obtain ⟨s₁', h2, e'⟩ := ih sm s₂ fb' hpre' hdep.2 (by rw [e1, e2]; exact hh) (hgf.tail e1) hs
-    obtain ⟨s₁, h1, e⟩ := join_main hpre hdep.1 hh hgf hm h2 fb
+    obtain ⟨hpre', e1, -⟩ := step_main hpre hm
+    obtain ⟨s₁', h2, e'⟩ := ih sm s₂ fb' hpre' hdep.2 (hgf.tail e1) hs
+    obtain ⟨s₁, h1, e⟩ := join_main hpre hdep.1 hgf hm h2 fb
     exact ⟨s₁, h1, equiv_trans e e'⟩
+
+/-! ### every accepted batch leaves the header covenants see unchanged (no standing assumption) -/
+
+/-- what every accepted batch keeps, and where its DOSC speed comes from -/
+theorem batch_keeps {env : Env} {s s' : State} {txs : List Tx} {fb : Header}
+    (h : applyBatch env s txs fb = .ok s') :
+    s'.network = s.network ∧ s'.height = s.height ∧ s'.feeMultiplier = s.feeMultiplier ∧
+    s'.history = s.history ∧ ∃ rel, loadRelevantCoins s txs = .ok rel ∧ speedFold env s rel txs = .ok s'.doscSpeed := by
+  obtain ⟨rel, ns, sp, next, h1, -, -, h4, h5, rfl⟩ := applyBatch_iff.mp h
+  rw [createNextState_eq'] at h5
+  obtain ⟨i1, i2, i3, i4, -⟩ := nextFold_info env _ txs _ _ h5
+  exact ⟨i1, i2, i3, i4, rel, h1, h4⟩
+
+/-- a batch without DoscMint transaction keeps the DOSC speed -/
+theorem speedFold_noMint {env : Env} {s : State} {rel : Relevant} :
+    ∀ (txs : List Tx) (b sp : Nat), (∀ tx ∈ txs, tx.kind ≠ .doscMint) →
+      Outcome.foldlM' (spStep env s rel) b txs = .ok sp → sp = b := by
+  intro txs
+  induction txs with
+  | nil =>
+    intro b sp _ h
+    exact ((Outcome.foldlM'_nil_ok _ _ _).mp h).symm
+  | cons t rest ih =>
+    intro b sp hk h
+    obtain ⟨b', h1, h2⟩ := (Outcome.foldlM'_cons_ok _ _ _ _ _).mp h
+    have : b' = b := by
+      unfold spStep at h1
+      rw [if_neg (hk t List.mem_cons_self)] at h1
+      cases h1
+      rfl
+    rw [ih b' sp (fun tx htx => hk tx (List.mem_cons_of_mem _ htx)) h2, this]
+
+theorem batch_speed_noMint {env : Env} {s s' : State} {txs : List Tx} {fb : Header}
+    (h : applyBatch env s txs fb = .ok s') (hk : ∀ tx ∈ txs, tx.kind ≠ .doscMint) : s'.doscSpeed = s.doscSpeed := by
+  obtain ⟨-, -, -, -, rel, -, hsp⟩ := batch_keeps h
+  exact speedFold_noMint txs _ _ hk hsp
+
+/-- in a state without previous header no accepted batch changes the DOSC speed (it cannot contain a DoscMint) -/
+theorem batch_speed_first {env : Env} {s s' : State} {txs : List Tx} {fb : Header}
+    (h : applyBatch env s txs fb = .ok s') (hn : s.history.get (s.height - 1) = none) :
+    s'.doscSpeed = s.doscSpeed := by
+  obtain ⟨-, -, -, -, rel, -, hsp⟩ := batch_keeps h
+  exact speedFold_first hn txs _ _ hsp
+
+theorem batch_standIn {env : Env} {s s' : State} {txs : List Tx} {fb : Header}
+    (h : applyBatch env s txs fb = .ok s') (hd : s'.doscSpeed = s.doscSpeed) :
+    genesisStandIn s' = genesisStandIn s := by
+  obtain ⟨e3, e2, e4, -, -⟩ := batch_keeps h
+  exact genesisStandIn_congr e2 e3 e4 hd
+
+/-- the header covenants see is the same after any accepted batch as before it -/
+theorem batch_lastHeader {env : Env} {s s' : State} {txs : List Tx} {fb : Header}
+    (h : applyBatch env s txs fb = .ok s') (fb₁ fb₂ : Header) : lastHeaderOf s' fb₁ = lastHeaderOf s fb₂ := by
+  obtain ⟨e3, e2, e4, e1, -⟩ := batch_keeps h
+  exact lastHeader_eq fb₂ fb₁ e1 e2 e3 e4 (batch_speed_first h)
 
 end SeqL
 end Mel
